@@ -269,8 +269,9 @@ class Peer:
             if s.resume.get("ctrl"):
                 sid, n = s.resume["ctrl"]
                 self.rs_ctrl = (lit(sid), prev_secret(U, n))
-        if live_session is not None:     # (sid bytes, secret bytes) the accessory remembers from an earlier LIVE session
-            self.session = (lit(live_session[0]), lit(live_session[1]))
+        if live_session is not None:     # (sid, secret, new sid) the accessory remembers from an earlier LIVE session
+            sec = live_session[1]
+            self.session = (lit(live_session[0]), sec if isinstance(sec, V) else lit(sec))
             self.new_sid = lit(live_session[2])
         self.acc = VerifyAccessory(U, a["acc_id"], a["ltsk"], a["eph"], a["ctrl_id"], U.edpub(a["ctrl_ltsk"]),
                                    self.session, self.new_sid)
@@ -1236,6 +1237,471 @@ async def ble_sequence(mode):
     return sessions, problems
 
 
+# ------------------------------------------------------------------ random HISTORIES vs the history machine (VerifyHist.v)
+def _nonce(n):
+    return bytes(4) + n.to_bytes(8, "little")
+
+
+class LiveBase:
+    """one live connection / pairing object of the real code + the harness's view of the link"""
+    transport = "?"
+
+    def __init__(self, U=None):
+        self.U = U
+        self.hub = dict(peer=None, fail=None)
+        self.n_send = self.n_recv = self.n_evt = 0
+
+    def fresh_counters(self):
+        self.n_send = self.n_recv = self.n_evt = 0
+
+    def which(self, ct, aad, sessions, n):
+        """index of the session whose c2a key opens what the controller just encrypted (the library's own
+        resynchronisation heuristics may have moved its counters: a small window is searched and adopted)"""
+        for m in [n] + [x for x in range(0, 24) if x != n]:
+            for j, ks in sessions.items():
+                if R.aead_open(ks["c2a"], _nonce(m), aad, ct) is not None:
+                    self.n_send = m
+                    return j
+        return "unknown"
+
+    def feed(self, fn, key, n):
+        """fn(sealed) with the peer's counter searched in a small window; returns the counter that worked or None"""
+        for m in [n] + [x for x in range(0, 24) if x != n]:
+            try:
+                if fn(R.aead_seal(key, _nonce(m), b"", b"pong")) == b"pong":
+                    return m
+            except Exception:  # noqa: BLE001
+                pass
+        return None
+
+
+class LiveCoap(LiveBase):
+    transport = "coap"
+
+    async def __aenter__(self):
+        import aiohomekit.controller.coap.connection as cc
+        from aiocoap.error import NetworkError
+        from aiocoap.numbers.codes import Code
+        hub, loop = self.hub, asyncio.get_running_loop()
+
+        class Resp:
+            def __init__(self, payload, code=Code.CHANGED):
+                self.payload, self.code = payload, code
+
+        class Req:
+            def __init__(self, resp):
+                self.response = loop.create_future()
+                if resp is not None:
+                    self.response.set_result(resp)
+
+        class FakeCtx:
+            def request(self, message):
+                f = hub["fail"]
+                if f == "network-error":
+                    raise NetworkError("unreachable")
+                if f == "timeout":
+                    return Req(None)
+                if f == "not-found":
+                    return Req(Resp(b"", Code.NOT_FOUND))
+                if f == "garbage-response":
+                    return Req(Resp(bytes(range(40))))
+                return Req(Resp(hub["peer"].respond(bytes(message.payload))))
+
+            async def shutdown(self):
+                pass
+
+        class FakeContext:
+            @staticmethod
+            async def create_server_context(root, bind=None):
+                return FakeCtx()
+
+            @staticmethod
+            async def create_client_context():
+                return FakeCtx()
+        self.cc, self.saved = cc, cc.Context
+        cc.Context = FakeContext
+        self.conn = cc.CoAPHomeKitConnection(None, "::1", 5683)
+        return self
+
+    async def __aexit__(self, *a):
+        self.cc.Context = self.saved
+
+    async def verify(self, peer):
+        self.hub["peer"], self.hub["fail"] = peer, None
+        try:
+            await self.conn.do_pair_verify(peer.pd)
+        except Exception as e:  # noqa: BLE001
+            return type(e).__name__
+        self.fresh_counters()
+        return None
+
+    async def drop(self, mode):
+        if self.conn.enc_ctx is None or self.conn.enc_ctx.coap_ctx is None:
+            return "not-live"
+        self.hub["fail"] = mode
+        try:
+            await self.conn.enc_ctx.post_bytes(b"\x00\x01\x02", timeout=0.02)
+        except Exception as e:  # noqa: BLE001
+            return type(e).__name__
+        finally:
+            self.hub["fail"] = None
+            self.n_send += 1
+
+    async def reset(self):
+        if self.conn.enc_ctx is not None and self.conn.enc_ctx.coap_ctx is None:
+            return "skipped"        # reconnect_soon would crash on the missing coap_ctx: not part of this machine
+        await self.conn.reconnect_soon()
+
+    async def probe(self, sessions):
+        live = bool(self.conn.is_connected)
+        ec = self.conn.enc_ctx
+        if ec is None:
+            return live, None, None, []
+        notes = []
+        j = self.which(ec.encrypt(b"probe"), b"", sessions, self.n_send)
+        self.n_send += 1
+        if j != "unknown":
+            m = self.feed(ec.decrypt, sessions[j]["a2c"], self.n_recv)
+            if m is not None:
+                self.n_recv = m + 1
+            else:
+                notes.append(f"write key is session {j}'s but the read key is not")
+            m = self.feed(ec.decrypt_event, sessions[j]["evt"], self.n_evt)
+            if m is not None:
+                self.n_evt = m + 1
+            else:
+                notes.append(f"write key is session {j}'s but the event key is not")
+        return live, j, None, notes
+
+
+class LiveIp(LiveBase):
+    transport = "ip"
+
+    async def __aenter__(self):
+        import aiohomekit.controller.ip.connection as ipc
+        hub = self.hub
+
+        class FakeTransport:
+            def __init__(self):
+                self.frames = []
+
+            def write(self, data):
+                self.frames.append(bytes(data))
+
+            def writelines(self, lines):
+                self.frames.append(b"".join(bytes(x) for x in lines))
+
+            def close(self):
+                pass
+
+            def write_eof(self):
+                pass
+
+            def is_closing(self):
+                return False
+
+            def set_protocol(self, p):
+                pass
+
+            def get_extra_info(self, *a, **k):
+                return None
+
+        class Resp:
+            def __init__(self, body):
+                self.body = body
+
+        async def fake_post(target, body, content_type=None):
+            return Resp(hub["peer"].respond(bytes(body)))
+
+        async def fake_base_connect(this):
+            this.transport = FakeTransport()
+            this.protocol = ipc.InsecureHomeKitProtocol(this)
+            this.connected_host = "127.0.0.1"
+        peer0 = Peer(Scn("history", "ip", 0, honest=True), self.U, 98)
+        self.ipc, self.orig = ipc, ipc.HomeKitConnection._connect_once
+        ipc.HomeKitConnection._connect_once = fake_base_connect
+        self.conn = ipc.SecureHomeKitConnection(None, dict(peer0.pd, AccessoryIP="127.0.0.1", AccessoryPort=1))
+        self.conn.post = fake_post
+        self.conn._start_connector = lambda: None      # the reconnect loop is C10's; here the harness decides
+        return self
+
+    async def __aexit__(self, *a):
+        self.ipc.HomeKitConnection._connect_once = self.orig
+
+    async def verify(self, peer):
+        self.hub["peer"] = peer
+        try:
+            await self.conn._connect_once()
+        except Exception as e:  # noqa: BLE001
+            # what _reconnect does with a failed attempt (repaired behaviour: no transport is kept)
+            self.conn._drop_transport()
+            return type(e).__name__
+        self.fresh_counters()
+        return None
+
+    async def drop(self, mode):
+        if self.conn.protocol is not None:
+            self.conn._connection_lost(None, self.conn.protocol)
+
+    async def reset(self):
+        await self.drop(None)
+
+    async def probe(self, sessions):
+        live = bool(self.conn.is_connected)
+        if not live or self.conn.protocol is None:
+            return live, None, None, []
+        tr_ = self.conn.transport
+        tr_.frames.clear()
+        task = asyncio.ensure_future(self.conn.protocol.send_bytes(b"GET /x HTTP/1.1\r\n\r\n"))
+        await asyncio.sleep(0)
+        await asyncio.sleep(0)
+        f = b"".join(tr_.frames)
+        notes, j = [], "unknown"
+        if len(f) > 18:
+            ln = int.from_bytes(f[:2], "little")
+            j = self.which(f[2:2 + ln + 16], f[:2], sessions, self.n_send)
+        self.n_send += 1
+        if j != "unknown":
+            body = b"HTTP/1.1 200 OK\r\nContent-Length: 2\r\n\r\nok"
+            lb = len(body).to_bytes(2, "little")
+            try:
+                self.conn.protocol.data_received(lb + R.aead_seal(sessions[j]["a2c"], _nonce(self.n_recv), lb, body))
+                resp = await asyncio.wait_for(task, 0.5)
+                okr = getattr(resp, "code", None) == 200
+            except Exception:  # noqa: BLE001
+                okr = False
+            if okr:
+                self.n_recv += 1
+            else:
+                notes.append(f"write key is session {j}'s but the read key is not")
+        if not task.done():
+            task.cancel()
+            with contextlib.suppress(BaseException):
+                await task
+        return live, j, None, notes
+
+
+class LiveBle(LiveBase):
+    transport = "ble"
+
+    async def __aenter__(self):
+        import aiohomekit.controller.ble.client as bc
+        import aiohomekit.controller.ble.pairing as bp
+        hub = self.hub
+
+        async def fake_char_write(client, ek, dk, handle, iid, body):
+            return hub["peer"].respond(bytes(body))
+
+        class FakeClient:
+            address = "00:00"
+            is_connected = True
+
+            async def get_characteristic(self, *a, **k):
+                return object()
+
+            async def get_characteristic_iid(self, *a, **k):
+                return 1
+        peer0 = Peer(Scn("history", "ble", 0, honest=True), self.U, 98)
+        p = bp.BlePairing.__new__(bp.BlePairing)
+        p._ble_request_lock = asyncio.Lock()
+        p.client = FakeClient()
+        p.pairing_data = peer0.pd
+        p._session_id = p._derive = p._encryption_key = p._decryption_key = None
+        self.p, self.bc, self.orig = p, bc, bc.char_write
+        bc.char_write = fake_char_write
+        return self
+
+    async def __aexit__(self, *a):
+        self.bc.char_write = self.orig
+
+    async def verify(self, peer):
+        self.hub["peer"] = peer
+        try:
+            await self.p._async_pair_verify()
+        except Exception as e:  # noqa: BLE001
+            return type(e).__name__
+        self.fresh_counters()
+        return None
+
+    async def drop(self, mode):
+        self.p._async_reset_connection_state()
+
+    async def reset(self):
+        await self.drop(None)
+
+    async def probe(self, sessions, sids=None):
+        p = self.p
+        live = bool(p._encryption_key)
+        r = None
+        if p._session_id is not None:
+            r = "unknown"
+            for j, sid in (sids or {}).items():
+                if bytes(p._session_id) == sid:
+                    r = j
+                    break
+        if not p._encryption_key:
+            return live, None, r, []
+        notes = []
+        j = self.which(bytes(p._encryption_key.encrypt(b"probe")), b"", sessions, self.n_send)
+        self.n_send += 1
+        if j != "unknown":
+            try:
+                okr = bytes(p._decryption_key.decrypt(R.aead_seal(sessions[j]["a2c"], _nonce(self.n_recv), b"", b"pong"))) == b"pong"
+            except Exception:  # noqa: BLE001
+                okr = False
+            if okr:
+                self.n_recv += 1
+            else:
+                notes.append(f"write key is session {j}'s but the read key is not")
+        return live, j, r, notes
+
+
+HIST_EVENTS = dict(
+    coap=["honest", "honest", "honest", "wrong-ltsk", "m4-error", "replay", "drop", "drop", "reset"],
+    ip=["honest", "honest", "honest", "wrong-ltsk", "m4-error", "replay", "drop", "reset"],
+    ble=["honest", "honest", "honest", "honest", "forgot", "wrong-ltsk", "m4-error", "replay", "resume-forged", "drop", "drop"])
+COAP_DROPS = ["network-error", "timeout", "not-found", "garbage-response"]
+
+
+def gen_histories(tier, rnd):
+    n = 25 if tier == "quick" else 300
+    out = []
+    for tr in TRANSPORTS:
+        fixed = [["honest", "drop", "honest", "replay"], ["honest", "wrong-ltsk", "honest"],
+                 ["honest", "honest", "drop", "m4-error", "honest"], ["wrong-ltsk", "drop", "honest", "reset", "honest"]]
+        if tr == "ble":
+            fixed += [["honest", "drop", "honest", "drop", "honest"], ["honest", "drop", "forgot", "drop", "resume-forged", "drop", "honest"]]
+        for h in fixed:
+            out.append((tr, h))
+        for _ in range(n):
+            out.append((tr, [rnd.choice(HIST_EVENTS[tr]) for _ in range(rnd.randrange(3, 8))]))
+    return out
+
+
+def py_spec(tr, log):
+    """the latest-success rule, written independently of the Coq machine: (live, keys index, resume index)
+    after an event log of ('ok', i) | ('fail',) | ('drop',) | ('reset',)"""
+    live, keys, res = False, None, None
+    out = []
+    for i, ev in enumerate(log):
+        if ev[0] == "ok":
+            live, keys = True, i
+            res = i if tr == "ble" else None
+        elif ev[0] == "fail":
+            if tr == "ip":
+                live, keys = False, None
+            elif tr == "coap" and live:
+                live, keys = False, None
+        elif ev[0] == "drop" or (ev[0] == "reset" and tr != "coap"):
+            live = False
+            if tr != "coap":
+                keys = None
+        elif ev[0] == "reset":
+            live, keys = False, None
+        out.append((live, keys, res))
+    return out
+
+
+async def run_history(tr, kinds, rnd):
+    """one random history on one live object; returns (impl states, model request, log, transcript)"""
+    U = Universe("c01-hist")
+    live_cls = dict(coap=LiveCoap, ip=LiveIp, ble=LiveBle)[tr]
+    sessions, sids, impl, log, events, script = {}, {}, [], [], [], []
+    last_ok = None          # (peer) of the latest successful verify, for the accessory's memory and for replays
+    recorded = []           # successful full verifies: (m2 items, m4 items) to replay
+    async with live_cls(U) as lv:
+        for i, kind in enumerate(kinds):
+            entry = dict(event=kind)
+            if kind in ("drop", "reset"):
+                mode = rnd.choice(COAP_DROPS) if (tr == "coap" and kind == "drop") else None
+                r = await (lv.drop(mode) if kind == "drop" else lv.reset())
+                if r == "skipped":
+                    entry["event"] = kind = "noop"
+                    events.append(None)
+                    log.append(("noop",))
+                else:
+                    entry.update(mode=mode, raised=r)
+                    events.append("D" if kind == "drop" else "R")
+                    log.append((kind,))
+            else:
+                accd, m2ops, m4ops, live_s = dict(eph=200 + i), [], [], None
+                if kind == "wrong-ltsk":
+                    accd["ltsk"] = OTHER_LTSK
+                if kind == "m4-error":
+                    m4ops = [top(l_add(-1, T_ERROR, b"\x02"), "err2")]
+                if kind == "replay":
+                    if not recorded:
+                        accd["ltsk"] = OTHER_LTSK          # nothing to replay yet: a plain impostor instead
+                    else:
+                        rm2, rm4 = rnd.choice(recorded)
+                        m2ops = [top(lambda items, ctx, rm2=rm2: rm2, "recorded-m2")]
+                        m4ops = [top(lambda items, ctx, rm4=rm4: rm4, "recorded-m4")]
+                if tr == "ble" and kind in ("honest", "resume-forged", "m4-error", "replay") and last_ok is not None:
+                    live_s = (last_ok.acc.sid, last_ok.acc.secret_v, bytes([0x40 + i]) * 8)
+                if kind == "resume-forged":
+                    def forged(items, ctx, i=i):
+                        Uu = ctx.U
+                        ns = lit(bytes([0x60 + i]) * 8)
+                        tag = Uu.seal(Uu.hkdf(lit(b"not-the-secret"), ctx.C + ns, lit(R.L_RES_RESP)), lit(R.nonce12(b"PR-Msg02")),
+                                      lit(b""), lit(b""))
+                        return [(T_STATE, lit(b"\x02")), (T_METHOD, lit(b"\x06")), (T_SID, ns), (T_ENC, tag)]
+                    m2ops = [top(forged, "forged-resume")]
+                peer = Peer(Scn("history", tr, 0, acc=accd, m2=m2ops, m4=m4ops), U, 100 + i, live_session=live_s)
+                exc = await lv.verify(peer)
+                entry.update(exception=exc, **_transcript(peer))
+                ok = exc is None
+                if ok and peer.acc.secret is not None:
+                    sessions[i] = R.session_keys(peer.acc.secret, tr)
+                    sids[i] = peer.acc.sid
+                    last_ok = peer
+                    if peer.acc.state == "verify" and not m2ops:
+                        recorded.append((peer.m2_items, peer.m4_items))
+                elif ok:
+                    entry["note"] = "verify succeeded although the accessory holds no session secret"
+                    sessions[i] = dict(c2a=bytes(32), a2c=bytes(32), evt=bytes(32))
+                log.append(("ok", i) if ok else ("fail",))
+                if peer.sym_m2 is None or peer.reused_name is not None:
+                    events.append("?")
+                else:
+                    m4t = peer.sym_m4 if (peer.m4 is not None and peer.sym_m4 not in (None, "honest")) else \
+                        (reply_term(peer.m4_items) if peer.m4_items else ".")
+                    events.append(f"V:{100 + i}:{peer.sym_m2}:{m4t}")
+                pd = peer
+            if kind == "noop":
+                impl.append(impl[-1] if impl else (False, None, None, []))
+            elif tr == "ble":
+                impl.append(await lv.probe(sessions, sids))
+            else:
+                impl.append(await lv.probe(sessions))
+            entry["observed"] = dict(live=impl[-1][0], keys_of_session=impl[-1][1], resumable_session=impl[-1][2],
+                                     notes=impl[-1][3])
+            script.append(entry)
+    p0 = Peer(Scn("history", tr, 0, honest=True), U, 99)
+    hx = lambda x: x.hex() if x else "-"  # noqa: E731
+    req = None
+    if "?" not in events:
+        req = " ".join(["hist", tr, hx(p0.acc_id), msg(p0.stored_ltpk), hx(p0.ios_id), str(p0.record["ios_ltsk"])]
+                       + [e for e in events if e is not None])
+    return impl, req, log, script
+
+
+def history_pass(tier, rnd):
+    out = []
+
+    async def main():
+        for tr, kinds in gen_histories(tier, rnd):
+            out.append((tr, kinds) + await run_history(tr, kinds, rnd))
+    import logging
+    lg = logging.getLogger("aiohomekit.controller.coap.connection")
+    lvl = lg.level
+    lg.setLevel(logging.CRITICAL + 1)
+    try:
+        asyncio.run(main())
+    finally:
+        lg.setLevel(lvl)
+    return out
+
+
 SEQUENCE_MODES = dict(
     coap=["network-error", "timeout", "not-found", "garbage-response", "reconnect-soon", "verify-while-connected",
           "failed-verify-between"],
@@ -1641,6 +2107,55 @@ def run(ctx):
                                                     "session as stated, then check encrypt/decrypt/decrypt_event against "
                                                     "accessory_keys of the LAST session"))
     cov.extra["session_sequences"] = n_seq
+    # ---- fourth pass: random histories on one live object vs the history machine (Model/VerifyHist.v)
+    n_hist = n_hist_events = 0
+    if not ctx.get("replay"):
+        hs = history_pass(tier, rng(ctx["seed"], "c01-hist"))
+        reqs = [h[3] for h in hs if h[3]]
+        ans = iter(drv.batch(reqs))
+        for tr_, kinds, impl, req, log, script in hs:
+            n_hist += 1
+            n_hist_events += len(kinds)
+            model = next(ans).split(" ") if req else None
+            spec = py_spec(tr_, log)
+            real = [k for k in range(len(log)) if log[k][0] != "noop"]
+            cov.case(f"history|{tr_}|{kinds}", True, transport="history-" + tr_, family="history",
+                     sample=dict(scenario=f"history:{tr_}", events=kinds, observed=[list(x[:3]) for x in impl], model=model)
+                     if n_hist % 40 == 1 else None, hist_len=len(kinds),
+                     **{"hist_event": "+".join(sorted(set(kinds)))[:60]})
+            bad = None
+            for k, st_ in enumerate(impl):
+                if st_[3]:
+                    bad = (k, "mixed-keys", "; ".join(st_[3]))
+                    break
+                if (bool(st_[0]), st_[1], st_[2] if tr_ == "ble" else None) != (spec[k][0], spec[k][1], spec[k][2]):
+                    bad = (k, "stale-or-missing-keys",
+                           f"after event {k} ({kinds[k]}) the object is live={st_[0]} with the keys of session {st_[1]} "
+                           f"(resumable: {st_[2]}); the latest-success rule gives live={spec[k][0]}, session {spec[k][1]} "
+                           f"(resumable: {spec[k][2]})")
+                    break
+            payload = dict(scenario=f"history:{tr_}", transport=tr_, events=kinds, script=script, model=model,
+                           how_to_replay="one live object (CoAPHomeKitConnection / SecureHomeKitConnection / BlePairing); apply "
+                                         "the events in order: a verify answers the controller's M1/M3 with the listed m2/m4, a "
+                                         "drop ends the session as stated; after each event probe which session's keys "
+                                         "encrypt/decrypt (accessory_keys) and whether the object reports itself connected")
+            if bad:
+                viol.append(violation(f"history:{tr_}:{bad[1]}:after-{kinds[bad[0]]}",
+                                      f"history {kinds} on one live {tr_} object: {bad[2]}", True, **payload))
+            elif model is not None:
+                mw = [model[j] for j in range(len(model))]
+                iw = []
+                for k in real:
+                    st_ = impl[k]
+                    pos = {kk: n for n, kk in enumerate(real)}
+                    f = lambda x: "-" if x is None else str(pos.get(x, x))  # noqa: E731
+                    iw.append(f"{1 if st_[0] else 0},{f(st_[1])},{f(st_[2]) if tr_ == 'ble' else '-'}")
+                if mw != iw:
+                    viol.append(violation(f"model-mismatch:history:{tr_}",
+                                          f"history machine and implementation disagree on {kinds}: impl {iw} model {mw}", False,
+                                          **payload))
+    cov.extra["histories"] = n_hist
+    cov.extra["history_events"] = n_hist_events
     # ---- second pass: the real transport coroutines
     sel = [(s, r) for s, r in zip(scns, recs)
            if s.family in GLUE_FAMILIES or (tier == "thorough" and not s.family.startswith("m2:raw"))]
